@@ -151,6 +151,10 @@ static Bytes l2_wrap(const Req& q, const Mac& src, const Mac& dst, uint16_t vid,
     return eth_bytes(dst, src, et, l3, pad);
 }
 
+// perturbation of a matched field: mostly a single flipped bit (a matcher that compares only part of the field must not get away), otherwise any other value
+static uint16_t pert16(Rng& r, uint16_t v, int bits = 16) { uint16_t m = (uint16_t)((1u << bits) - 1); if (r.chance(0.6)) return (uint16_t)(v ^ (1u << r.below((uint64_t)bits))); uint16_t o = (uint16_t)((v + 1 + r.below((uint64_t)m - 1)) & m); return o == v ? (uint16_t)(v ^ 1) : o; }
+static Addr pert_addr(Rng& r, const Addr& a, const Addr& other) { if (r.chance(0.5)) return other; Addr x = a; size_t bit = r.below((uint64_t)a.len * 8); if (bit < 8) bit += 8; /* keep the class of the address (first byte) */ x.b[bit / 8] ^= (uint8_t)(1u << (bit % 8)); return x; }
+static Mac pert_mac(Rng& r, const Mac& a) { if (r.chance(0.5)) return Mac::of(9); Mac x = a; size_t bit = 8 + r.below(40); x.b[bit / 8] ^= (uint8_t)(1u << (bit % 8)); return x; }
 struct SockEngine : Engine {
     const char* name() const { return "sock"; }
     std::string components_json() const {
@@ -208,18 +212,18 @@ struct SockEngine : Engine {
             int ns = (int)cfg.small(0, tier == "thorough" ? 40 : 14);
             for (int i = 0; i < ns; ++i) {
                 In s; s.label = 0; s.at = cfg.chance(0.7) ? (int64_t)cfg.range(10, std::max<int64_t>(md, 20)) : (int64_t)cfg.range(10, T + 500000);
-                int kind = (int)cfg.below(16); uint16_t vid2 = (uint16_t)((q.vid + 1 + cfg.below(4094)) & 0xfff); if (vid2 == q.vid) vid2 ^= 1;
+                int kind = (int)cfg.below(16); uint16_t vid2 = pert16(cfg, q.vid, 12);
                 switch (kind) {
-                    case 0: if (!q.l2) { kind = 2; } else { s.pert = "eth-dst"; s.f = frame(ra, q.src, rm, Mac::of(9), q.vid, q.dport, q.sport, q.id, q.seqn, -1, true); break; }
+                    case 0: if (!q.l2) { kind = 2; } else { s.pert = "eth-dst"; s.f = frame(ra, q.src, rm, pert_mac(cfg, q.smac), q.vid, q.dport, q.sport, q.id, q.seqn, -1, true); break; }
                     case 1: if (!q.vlan) { kind = 3; } else { s.pert = "vlan-id"; s.f = frame(ra, q.src, rm, q.smac, vid2, q.dport, q.sport, q.id, q.seqn, -1, true); break; }
                     case 2: if (bcast) { s.pert = "unrelated"; s.f = frame(other, other, Mac::of(7), Mac::of(8), q.vid, q.dport, q.sport, q.id, q.seqn, -1, true); break; }   /* any host may answer a broadcast: a reply from another source is not a stranger */
-                            s.pert = "ip-src"; s.f = frame(other, q.src, rm, q.smac, q.vid, q.dport, q.sport, q.id, q.seqn, -1, true); break;
-                    case 3: s.pert = "ip-dst"; s.f = frame(ra, other, rm, q.smac, q.vid, q.dport, q.sport, q.id, q.seqn, -1, true); break;
-                    case 4: if (q.l4 > 2 && q.l4 < 7) { s.pert = "icmp-id"; s.f = frame(ra, q.src, rm, q.smac, q.vid, q.dport, q.sport, (uint16_t)(q.id + 1 + cfg.below(65534)), q.seqn, -1, true); } else { s.pert = "l4-sport"; s.f = frame(ra, q.src, rm, q.smac, q.vid, (uint16_t)(q.dport + 1 + cfg.below(65534)), q.sport, q.id, q.seqn, -1, true); } break;
-                    case 5: if (q.l4 > 2 && q.l4 < 7) { s.pert = "icmp-seq"; s.f = frame(ra, q.src, rm, q.smac, q.vid, q.dport, q.sport, q.id, (uint16_t)(q.seqn + 1 + cfg.below(65534)), -1, true); } else { s.pert = "l4-dport"; s.f = frame(ra, q.src, rm, q.smac, q.vid, q.dport, (uint16_t)(q.sport + 1 + cfg.below(65534)), q.id, q.seqn, -1, true); } break;
-                    case 6: if (q.l4 >= 7) { s.pert = "dhcp-xid"; s.f = frame(ra, q.src, rm, q.smac, q.vid, q.dport, q.sport, (uint16_t)(q.id + 1 + cfg.below(65534)), q.seqn, -1, true); }
+                            s.pert = "ip-src"; s.f = frame(pert_addr(cfg, ra, other), q.src, rm, q.smac, q.vid, q.dport, q.sport, q.id, q.seqn, -1, true); break;
+                    case 3: s.pert = "ip-dst"; s.f = frame(ra, pert_addr(cfg, q.src, other), rm, q.smac, q.vid, q.dport, q.sport, q.id, q.seqn, -1, true); break;
+                    case 4: if (q.l4 > 2 && q.l4 < 7) { s.pert = "icmp-id"; s.f = frame(ra, q.src, rm, q.smac, q.vid, q.dport, q.sport, pert16(cfg, q.id), q.seqn, -1, true); } else { s.pert = "l4-sport"; s.f = frame(ra, q.src, rm, q.smac, q.vid, pert16(cfg, q.dport), q.sport, q.id, q.seqn, -1, true); } break;
+                    case 5: if (q.l4 > 2 && q.l4 < 7) { s.pert = "icmp-seq"; s.f = frame(ra, q.src, rm, q.smac, q.vid, q.dport, q.sport, q.id, pert16(cfg, q.seqn), -1, true); } else { s.pert = "l4-dport"; s.f = frame(ra, q.src, rm, q.smac, q.vid, q.dport, pert16(cfg, q.sport), q.id, q.seqn, -1, true); } break;
+                    case 6: if (q.l4 >= 7) { s.pert = "dhcp-xid"; s.f = frame(ra, q.src, rm, q.smac, q.vid, q.dport, q.sport, pert16(cfg, q.id), q.seqn, -1, true); }
                             else if (q.l4 > 2) { s.pert = "icmp-type"; static const int wrong4[4] = { 8, 13, 17, 11 }; int ty = q.l4 == 6 ? (cfg.chance(0.5) ? 128 : 1) : wrong4[cfg.below(4)]; s.f = frame(ra, q.src, rm, q.smac, q.vid, q.dport, q.sport, q.id, q.seqn, ty, true); }
-                            else if (q.l4 == 2) { s.pert = "dns-id"; s.f = frame(ra, q.src, rm, q.smac, q.vid, q.dport, q.sport, (uint16_t)(q.id + 1 + cfg.below(65534)), q.seqn, -1, true); }
+                            else if (q.l4 == 2) { s.pert = "dns-id"; s.f = frame(ra, q.src, rm, q.smac, q.vid, q.dport, q.sport, pert16(cfg, q.id), q.seqn, -1, true); }
                             else { s.pert = "ports-not-swapped"; s.f = frame(ra, q.src, rm, q.smac, q.vid, q.sport, q.dport, q.id, q.seqn, -1, true); } break;
                     case 7: { s.pert = "unrelated"; Addr x = other, y = q.v6 ? Addr::v6((const uint8_t*)"\x20\x01\x0d\xb8\0\0\0\0\0\0\0\0\0\0\0\x64") : Addr::v4(172, 16, 0, 100); s.f = frame(x, y, Mac::of(7), Mac::of(8), vid2, (uint16_t)cfg.next(), (uint16_t)cfg.next(), (uint16_t)cfg.next(), (uint16_t)cfg.next(), -1, cfg.chance(0.5)); break; }
                     case 8: case 9: if (q.v6) { s.pert = "unrelated"; s.f = frame(other, q.src, Mac::of(7), q.smac, q.vid, (uint16_t)cfg.next(), (uint16_t)cfg.next(), (uint16_t)cfg.next(), (uint16_t)cfg.next(), 1, true); }
